@@ -257,6 +257,17 @@ func (o *Origins) Enter(callee *ssa.Function, call ssa.CallInstruction) *Origins
 	return c
 }
 
+// EnterClosure returns the context for reading a closure created in o.Fn: free variables resolve through o
+// (and so through o's own calling context); the closure's parameters stay parameters.
+func (o *Origins) EnterClosure(fn *ssa.Function) *Origins {
+	if fn.Parent() != o.Fn {
+		return o.p.OriginsOf(fn)
+	}
+	return &Origins{p: o.p, Fn: fn, Loops: o.p.OriginsOf(fn).Loops, outer: o, mc: FindMakeClosure(fn),
+		memo: map[ssa.Value]*Ex{}, busy: map[ssa.Value]bool{}, derived: map[ssa.Value]map[ssa.Value]bool{},
+		depth: o.depth + 1}
+}
+
 // Of computes the provenance of v.
 func (o *Origins) Of(v ssa.Value) *Ex {
 	if v == nil {
@@ -687,6 +698,16 @@ func (o *Origins) searchHelperResult(c *ssa.Call, callee *ssa.Function) *Ex {
 
 // SearchList returns the SSA value of the list searched by a (real or canonicalised) IndexFunc expression.
 func (o *Origins) SearchList(e *Ex) ssa.Value {
+	if e != nil && e.K == "call" && e.Call == nil && strings.HasSuffix(e.S, "slices.IndexFunc") {
+		if ph, ok := e.V.(*ssa.Phi); ok {
+			for _, in := range ph.Edges {
+				if l := o.Loops.byIndex[in]; l != nil {
+					return l.RangeOf
+				}
+			}
+		}
+		return nil
+	}
 	if e == nil || e.K != "call" || e.Call == nil || !strings.HasSuffix(e.S, "slices.IndexFunc") {
 		return nil
 	}
@@ -913,6 +934,9 @@ func (o *Origins) phi(ph *ssa.Phi) *Ex {
 		r := mkPhi(alts)
 		return mk("loopvar", "", r)
 	}
+	if e := o.inlineSearch(ph); e != nil {
+		return e
+	}
 	alts := make([]*Ex, 0, len(ph.Edges))
 	for i, e := range ph.Edges {
 		if o.predCut(ph.Block().Preds[i], ph.Block()) {
@@ -921,6 +945,86 @@ func (o *Origins) phi(ph *ssa.Phi) *Ex {
 		alts = append(alts, o.Of(e))
 	}
 	return mkPhi(alts)
+}
+
+// inlineSearch: the hand-written first-match loop
+//
+//	idx := -1; for j := range list { if P(list[j]) { idx = j; break } }
+//
+// leaves, behind the loop, a phi of the constant -1 (list exhausted) and the range index (taken on the edge
+// where P held). It is given the canonical expression of slices.IndexFunc(list, pred:(P)), like the search
+// helpers above. V is the phi; there is no call.
+func (o *Origins) inlineSearch(ph *ssa.Phi) *Ex {
+	if len(ph.Edges) != 2 {
+		return nil
+	}
+	if b, ok := ph.Type().Underlying().(*types.Basic); !ok || b.Kind() != types.Int {
+		return nil
+	}
+	mi, ii := -1, -1
+	for i, e := range ph.Edges {
+		if k, ok := constInt(e); ok && k == -1 {
+			mi = i
+		} else if o.Loops.byIndex[e] != nil {
+			ii = i
+		}
+	}
+	if mi < 0 || ii < 0 {
+		return nil
+	}
+	l := o.Loops.byIndex[ph.Edges[ii]]
+	if l.RangeOf == nil || l.Blocks[ph.Block()] {
+		return nil
+	}
+	// -1 arrives from the loop header (exhaustion); the index from a block entered through one conditional edge
+	if ph.Block().Preds[mi] != l.Header {
+		return nil
+	}
+	brk := ph.Block().Preds[ii]
+	if !l.Blocks[brk] {
+		// break blocks are often outside the natural loop: they have the body block as only predecessor
+		if len(brk.Preds) != 1 || !l.Blocks[brk.Preds[0]] {
+			return nil
+		}
+	}
+	if len(brk.Preds) != 1 {
+		return nil
+	}
+	p := brk.Preds[0]
+	si := -1
+	for i, sb := range p.Succs {
+		if sb == brk {
+			si = i
+		}
+	}
+	f := o.EdgeFact(Edge{p, si})
+	if f == nil {
+		return nil
+	}
+	var pred *Ex
+	switch f.Kind {
+	case "cmp":
+		op := f.Op.String()
+		if !f.Pos {
+			switch op {
+			case "==":
+				op = "!="
+			case "!=":
+				op = "=="
+			default:
+				return nil
+			}
+		}
+		pred = mk("bin", op, f.A, f.B)
+	case "bool":
+		if !f.Pos {
+			return nil
+		}
+		pred = f.A
+	default:
+		return nil
+	}
+	return &Ex{K: "call", S: "slices.IndexFunc", Args: []*Ex{o.Of(l.RangeOf), mk("pred", "", pred)}, Idx: -1, V: ph}
 }
 
 // stripPassThroughPhis follows phis inside the loop that merge "value unchanged" (ph itself)
